@@ -58,9 +58,9 @@ type Prog struct {
 	helperOK    map[*ssa.Function]bool
 	sitesOf     map[*ssa.Function][]*ssa.Call
 	usedAsValue map[*ssa.Function]bool
-	ctx         []ssa.Instruction               // virtual call stack of the running deep enumeration (innermost last)
-	valueSites  map[*ssa.Function][]valueEntry  // functions/closures passed to a helper parameter: where the helper calls them
-	declined    map[*ssa.Function]bool // helpers some context could not inline
+	ctx         []ssa.Instruction              // virtual call stack of the running deep enumeration (innermost last)
+	valueSites  map[*ssa.Function][]valueEntry // functions/closures passed to a helper parameter: where the helper calls them
+	declined    map[*ssa.Function]bool         // helpers some context could not inline
 	cflow       *chanFlow
 	constGlob   map[string]map[int64]int64 // package-level tables that are never written after initialisation
 	nnGlob      map[string]bool            // package-level variables that always hold a non-nil value
